@@ -47,9 +47,35 @@ def _r9(ctx):
     r14_point_axis(ctx, "R-C04-9")
 
 
-def _r1(ctx):
+def _plateau_walk_back(fn_node):
+    """'walk' if the position tested for membership in the turning-point indices is  p = len(X) - 1  walked back over equal
+    neighbours  (while p > 0 and V[p-1] == V[p]: p -= 1), 'plain' if it is len(X) - 1 itself, None otherwise"""
+    tests = [n for n in ast.walk(fn_node) if isinstance(n, ast.Compare) and len(n.ops) == 1 and isinstance(n.ops[0], (ast.In, ast.NotIn))]
+    for t in tests:
+        if not isinstance(t.left, ast.Name):
+            continue
+        p = t.left.id
+        init = [s_ for s_ in walk_stmts(fn_node.body) if isinstance(s_, ast.Assign) and isinstance(s_.targets[0], ast.Name) and
+                s_.targets[0].id == p]
+        loops = [w for w in ast.walk(fn_node) if isinstance(w, ast.While)]
+        for w in loops:
+            dec = [s_ for s_ in w.body if isinstance(s_, ast.AugAssign) and isinstance(s_.target, ast.Name) and s_.target.id == p and
+                   isinstance(s_.op, ast.Sub) and const_value(s_.value) == 1]
+            eq = [c for c in ast.walk(w.test) if isinstance(c, ast.Compare) and len(c.ops) == 1 and isinstance(c.ops[0], ast.Eq) and
+                  isinstance(c.left, ast.Subscript) and isinstance(c.comparators[0], ast.Subscript) and
+                  norm_text(c.left.value) == norm_text(c.comparators[0].value) and
+                  {norm_text(c.left.slice), norm_text(c.comparators[0].slice)} == {p, "%s - 1" % p}]
+            if dec and eq and len(w.body) == 1 and len(init) == 1 and norm_text(init[0].value).startswith("len(") and \
+                    norm_text(init[0].value).endswith("- 1"):
+                return "walk"
+        if len(init) == 1 and norm_text(init[0].value).startswith("len(") and norm_text(init[0].value).endswith("- 1"):
+            return "plain"
+    return None
+
+
+def _r1(ctx, rule="R-C04-1"):
     prog = ctx.prog
-    ctx.rule("R-C04-1", floor=6, what="second pass flushes; first pass uses the computed flag; zero prepended; flush from doubled sequence")
+    ctx.rule(rule, floor=6, what="second pass flushes; first pass uses the computed flag; zero prepended; flush from doubled sequence")
     f2 = prog.func(D + "process_hcm_second")
     c = [c for c in calls_in(f2.node) if isinstance(c.func, ast.Attribute) and is_self_attr(c.func, "process")]
     fl = next((k.value for k in c[0].keywords if k.arg == "flush"), c[0].args[1] if c and len(c[0].args) > 1 else None) if c else None
@@ -144,8 +170,14 @@ def _r1(ctx):
         nf_ok = term_to_nf(last, lambda z: "LA" if z == len_a else None) == to_nf(parse_expr("LA - 1"))
     except NFUnsupported:
         nf_ok = False
-    if F[1] == "in" and nf_ok:
-        ctx.holds(fa, fa.node, "flush iff the last sample of pass 1 (index len(A)-1) is a turning point of the look-ahead sequence")
+    walk = _plateau_walk_back(fa.node)
+    if F[1] == "in" and walk == "walk":
+        ctx.holds(fa, fa.node, "flush iff the last sample of pass 1 - a trailing plateau taken at its first sample, as find_turns "
+                  "indexes it - is a turning point of the look-ahead sequence")
+    elif F[1] == "in" and nf_ok:
+        ctx.violated(fa, fa.node, "the flush decision tests position len(A)-1, but find_turns reports a plateau at its FIRST sample: a "
+                     "load sequence that ends in repeated values is never flushed in pass 1, its last reversal is processed in pass "
+                     "2 (the lifetime of [100, -200, -200] is twice that of [100, -200])", text="flush decision plateau")
     else:
         ctx.violated(fa, fa.node, "flush decision is not 'the last sample of pass 1 is a turning point of the look-ahead sequence'",
                      text="flush decision")
@@ -595,6 +627,12 @@ def variants():
                 return True
         return False
     out.append(witness("flush test looks at the first sample of the second copy", FN, flush_last, "R-C04-1"))
+
+    def plain_last(tree):
+        f = find_func(tree, C + "_adjust_samples_and_flush_for_hcm_first_run")
+        f.body = [st for st in f.body if not isinstance(st, ast.While)]
+        return True
+    out.append(witness("flush test on the plain last position (a trailing plateau is never flushed)", FN, plain_last, "R-C04-1"))
 
     def inc_cond(tree):
         f = find_func(tree, C + "process")
